@@ -190,6 +190,8 @@ pub fn iter_protocol(_r: &dyn Runner, _tier: Tier, st: &St, out: &mut Vec<Edge>)
                 let shared = matches!(kind, IterKind::Iter | IterKind::IntoIterRef);
                 out.push(Edge::IterProto { api, kind, pat, clone_at: pat.n + 1 });
                 if shared { for c in 0..=pat.n { out.push(Edge::IterProto { api, kind, pat, clone_at: c }); } }
+                // the same through `Clone::clone_from` (library iterators only; the typed view hands out std's slice iterators)
+                if shared && api == Api::Erased { for c in 0..=pat.n { out.push(Edge::IterProto { api, kind, pat, clone_at: 100 + c }); } }
             }
         }
     }
